@@ -26,6 +26,7 @@ THEOREMS = [
     "C09_q_in_range_partial", "C09_prior_is_distribution_partial", "C09_expanded_is_visited_partial",
     "C09_lambda_sq_pos_partial", "C09_policy_before_visit", "C09_policy_after_visit_partial",
     "C09_select_root_move_legal", "C09_select_root_move_accepted",
+    "C09_policy_meets_solver_contract_partial", "C09_multiplier_in_range_partial",
 ]
 MODEL_TARGETS = c08.MODEL_TARGETS
 TRUSTED_BASE = c08.TRUSTED_BASE + [
